@@ -38,7 +38,7 @@ Definition row_ok (r : rd_row) : bool :=
   let n := iota (length (row_kinds r)) in
   nlist_eqb (row_eq r) n && nlist_eqb (row_cmp r) n && nlist_eqb (row_canonical r) n &&
   nlist_eqb (row_hash r) n && tails_last (row_kinds r) &&
-  forallb (fun k => (1 <=? k) && (k <=? 9)) (row_kinds r).
+  forallb (fun k => (1 <=? k) && (k <=? 13)) (row_kinds r).
 
 (* T1 tie: every impl of every listed type ranges over all fields, in
    declaration order *)
@@ -88,7 +88,8 @@ Qed.
 Theorem c04_rd_eq_hash code a b : c04_rd_eq code a b = Some true -> c04_rd_hash code a = c04_rd_hash code b.
 Proof.
   unfold c04_rd_eq, c04_rd_hash. destruct (rd_lookup rd_table code) as [r|] eqn:L; [|discriminate].
-  intros H. inversion H as [H']. apply (rd_eq_hash code r a b L H').
+  intros H. inversion H as [H']. pose proof (rd_eq_hash code r a b L H') as E. unfold rd_hash in *.
+  injection E as E. rewrite E. reflexivity.
 Qed.
 
 (* == is an equivalence on values of one type *)
